@@ -82,7 +82,7 @@ func (s *BarGraph) WriteBar(idx int, key string, vals ...int64) {
 	{
 		var max int64
 		if s.Stacked {
-			max = sumi64(vals...)
+			max = sumPositivei64(vals...)
 		} else {
 			max = maxi64(vals...)
 		}
@@ -114,6 +114,16 @@ func maxi64(vals ...int64) (ret int64) {
 func sumi64(vals ...int64) (ret int64) {
 	for _, v := range vals {
 		ret += v
+	}
+	return
+}
+
+// sum of the parts that are drawn (negative segments have no width)
+func sumPositivei64(vals ...int64) (ret int64) {
+	for _, v := range vals {
+		if v > 0 {
+			ret += v
+		}
 	}
 	return
 }
